@@ -638,7 +638,11 @@ func (pe *PolicyEngine) createPodOwnersMap() (map[string]Peer, error) {
 			return nil, err
 		}
 		workload := &k8s.WorkloadPeer{Pod: pod}
-		res[workload.String()] = workload
+		// the workload is represented by its first pod by name (not by map iteration order), so results are
+		// the same on every run also if pods of the same owner are not identical (e.g. different container ports)
+		if existing, ok := res[workload.String()]; !ok || pod.Name < existing.(*k8s.WorkloadPeer).Pod.Name {
+			res[workload.String()] = workload
+		}
 	}
 	return res, nil
 }
